@@ -229,7 +229,8 @@ fn cmd_isolate(scens: &[&dyn Scenario], args: &[String]) -> i32 {
     };
     let tier = arg_val(args, "--tier").unwrap_or_else(|| "quick".into());
     let seed: u64 = arg_val(args, "--seed").and_then(|s| s.parse().ok()).unwrap_or(1);
-    let runs: u64 = arg_val(args, "--runs").and_then(|s| s.parse().ok()).unwrap_or_else(|| scen.runs(&tier));
+    let runs_div: u64 = arg_val(args, "--runs-div").and_then(|s| s.parse().ok()).unwrap_or(1).max(1);
+    let runs: u64 = arg_val(args, "--runs").and_then(|s| s.parse().ok()).unwrap_or_else(|| (scen.runs(&tier) / runs_div).max(1));
     let workers: u64 = arg_val(args, "--threads").and_then(|s| s.parse().ok()).unwrap_or(16);
     let replays = PathBuf::from(arg_val(args, "--replays").unwrap_or_else(|| "replays".into()));
     let _ = std::fs::create_dir_all(&replays);
@@ -410,9 +411,10 @@ fn cmd_run(scens: &[&dyn Scenario], args: &[String]) -> i32 {
     let seed: u64 = arg_val(args, "--seed")
         .and_then(|s| s.parse().ok())
         .unwrap_or(1);
+    let runs_div: u64 = arg_val(args, "--runs-div").and_then(|s| s.parse().ok()).unwrap_or(1).max(1);
     let runs: u64 = arg_val(args, "--runs")
         .and_then(|s| s.parse().ok())
-        .unwrap_or_else(|| scen.runs(&tier));
+        .unwrap_or_else(|| (scen.runs(&tier) / runs_div).max(1));
     let threads: usize = arg_val(args, "--threads")
         .and_then(|s| s.parse().ok())
         .unwrap_or_else(|| {
